@@ -57,19 +57,25 @@ CTWhy(s, e) ==
   ELSE IF Cands(sp, offers) = {} THEN "nothing-acceptable-must-give-default"
   ELSE "result-is-not-the-best-offer"
 
+(* The route's Produces is the operation's produces (a set: the analyzer returns it in map order,  *)
+(* duplicates collapsed) plus the API default unless contained.  Respond negotiates over "the       *)
+(* produces list plus the API's default type, last": the non-default entries in the route's order,  *)
+(* then the default.                                                                                *)
 APIOK(s, e) ==
   LET decl == s.olists[e.k]
       recs == Rng(decl) \cup {s.adef}
       all  == { Raw(o) : o \in recs }
       obs  == e.produces
+      dr   == Raw(s.adef)
+      order == Append(SelectSeq(obs, LAMBDA p : p # dr), dr)
   IN
   /\ ~e.panic
-  /\ Rng(obs) = all /\ Cardinality(all) = Len(obs)                 \* produces list plus the API's default type
-  /\ (Raw(s.adef) \notin { Raw(o) : o \in Rng(decl) }) => obs[Len(obs)] = Raw(s.adef)        \* ... last
-  /\ LET offers == [i \in DOMAIN obs |-> CHOOSE o \in recs : Raw(o) = obs[i]]
+  /\ Rng(obs) = all /\ Cardinality(all) = Len(obs)
+  /\ (dr \notin { Raw(o) : o \in Rng(decl) }) => obs[Len(obs)] = dr
+  /\ LET offers == [i \in DOMAIN order |-> CHOOSE o \in recs : Raw(o) = order[i]]
          k == BestOffer(SpecsOf(s.lines), offers)
      IN IF k = 0 THEN e.status = 406 /\ ~e.ran
-        ELSE e.status = 200 /\ e.ran /\ e.ctype = obs[k]
+        ELSE e.status = 200 /\ e.ran /\ e.ctype = order[k]
 
 APIWhy(s, e) ==
   IF e.panic THEN "api-panics"
